@@ -483,18 +483,33 @@ package sql
 
 //@ func (*AsyncWorker).dealWithGroupedContexts
 //@   prop C11 C10
-//@   requires aw != nil && aw.resourceMgr != nil && aw.rePutBackToQueue != nil && ghost.bd_calls == 0 && ghost.bd_fails == 0 && ghost.conns_out == 0
+//@   requires aw != nil && aw.resourceMgr != nil && aw.rePutBackToQueue != nil && ghost.conns_out == 0
 //@   let n := len(phaseCtxs)
+//@   let b0 := ghost.bd_calls
+//@   let f0 := ghost.bd_fails
 //@   let q0 := chanlen(aw.commitQueue)
-//@   modifies heap.all, ghost.all
-//@   ensures nothing-lost: chanlen(aw.commitQueue) - q0 + (ghost.bd_calls - ghost.bd_fails) == n
-//@   ensures no-deletion-without-a-connection: called("Conn#1") && callres("Conn#1", 1) != nil ==> ghost.bd_calls == 0
+//@   modifies ghost.all, chanlen(aw.commitQueue)
+//@   ensures nothing-lost: chanlen(aw.commitQueue) - q0 + ((ghost.bd_calls - b0) - (ghost.bd_fails - f0)) == n
+//@   ensures no-deletion-without-a-connection: called("Conn#1") && callres("Conn#1", 1) != nil ==> (ghost.bd_calls - b0) == 0
 //@   ensures connection-released: ghost.conns_out == 0
 //@   at call BatchDeleteUndoLog: assert exactly-this-branch: len(arg_xid) == 1 && len(arg_branchID) == 1 && arg_xid[0] == phaseCtx.Xid && arg_branchID[0] == phaseCtx.BranchID && arg_conn == conn && conn != nil
-//@   loop 1 invariant requeued: rangeindex >= -1 && rangeindex + 1 <= n && chanlen(aw.commitQueue) == q0 + rangeindex + 1 && ghost.bd_calls == 0
-//@   loop 2 invariant requeued: rangeindex >= -1 && rangeindex + 1 <= n && chanlen(aw.commitQueue) == q0 + rangeindex + 1 && ghost.bd_calls == 0
-//@   loop 3 invariant requeued: rangeindex >= -1 && rangeindex + 1 <= n && chanlen(aw.commitQueue) == q0 + rangeindex + 1 && ghost.bd_calls == 0
-//@   loop 4 invariant progress: rangeindex >= -1 && rangeindex + 1 <= n && ghost.bd_calls == rangeindex + 1 && chanlen(aw.commitQueue) == q0 + ghost.bd_fails && ghost.conns_out == 1 && conn != nil
+//@   loop 1 invariant requeued: rangeindex >= -1 && rangeindex + 1 <= n && chanlen(aw.commitQueue) == q0 + rangeindex + 1 && (ghost.bd_calls - b0) == 0
+//@   loop 2 invariant requeued: rangeindex >= -1 && rangeindex + 1 <= n && chanlen(aw.commitQueue) == q0 + rangeindex + 1 && (ghost.bd_calls - b0) == 0
+//@   loop 3 invariant requeued: rangeindex >= -1 && rangeindex + 1 <= n && chanlen(aw.commitQueue) == q0 + rangeindex + 1 && (ghost.bd_calls - b0) == 0
+//@   loop 4 invariant progress: rangeindex >= -1 && rangeindex + 1 <= n && (ghost.bd_calls - b0) == rangeindex + 1 && chanlen(aw.commitQueue) == q0 + (ghost.bd_fails - f0) && ghost.conns_out == 1 && conn != nil
+
+// the batch function the worker pool runs: the requests are grouped by resource and every group is dealt
+// with here, in the worker, one after the other (no goroutine is declared: what a goroutine would do is
+// not part of what is proved about the batch)
+//@ func (*AsyncWorker).doBranchCommit$1
+//@   prop C11 C10
+//@   requires aw != nil && aw.resourceMgr != nil && aw.rePutBackToQueue != nil && ghost.conns_out == 0
+//@   modifies heap.all, ghost.all
+//@   loop 1 invariant true
+//@   loop 2 invariant connections-balanced: ghost.conns_out == 0
+//@   at call dealWithGroupedContexts: assert each-group-under-its-own-resource: arg_resID == k
+//@   ensures connections-balanced: ghost.conns_out == 0
+//@   may_panic
 
 //@ iface (prometheus.Counter).Add
 //@   ensures true
